@@ -79,6 +79,12 @@ pub struct Gen<'a> {
     show_impls: Vec<T>,
     /// type parameters with a `Show` bound while the body of a generic function is generated
     cur_bounded: Vec<usize>,
+    /// C03: inject exactly one type error at the `at`-th site of kind `kind`
+    pub inject: Option<(&'static str, usize)>,
+    pub site_count: BTreeMap<&'static str, usize>,
+    pub injected: Option<String>,
+    /// the next `block` is the body of a top-level function (its tail must have the declared result type)
+    top_block: bool,
     uid: usize,
     pub feats: BTreeMap<&'static str, usize>,
 }
@@ -87,10 +93,29 @@ type Scope = Vec<(String, T)>;
 
 impl<'a> Gen<'a> {
     pub fn new(rng: &'a mut Rng, cfg: Cfg) -> Self {
-        Gen { rng, cfg, structs: vec![], enums: vec![], fns: vec![], show_impls: vec![], cur_bounded: vec![], uid: 0, feats: BTreeMap::new() }
+        Gen { rng, cfg, structs: vec![], enums: vec![], fns: vec![], show_impls: vec![], cur_bounded: vec![], inject: None, site_count: BTreeMap::new(), injected: None, top_block: false, uid: 0, feats: BTreeMap::new() }
     }
     fn feat(&mut self, f: &'static str) {
         *self.feats.entry(f).or_default() += 1;
+    }
+    /// a place where the context forces the type of what is written there; true = write the error here
+    fn hit(&mut self, kind: &'static str) -> bool {
+        let c = self.site_count.entry(kind).or_default();
+        let idx = *c;
+        *c += 1;
+        if self.injected.is_none() && self.inject == Some((kind, idx)) {
+            self.injected = Some(format!("{}@{}", kind, idx));
+            if std::env::var("GV_DEBUG_HIT").is_ok() {
+                eprintln!("{}", std::backtrace::Backtrace::force_capture());
+            }
+            true
+        } else {
+            false
+        }
+    }
+    /// a literal whose type is certainly not `t`
+    fn wrong_value(t: &T) -> String {
+        if *t == T::Bool { "\"w\"".into() } else { "true".into() }
     }
     fn fresh(&mut self, p: &str) -> String {
         self.uid += 1;
@@ -210,9 +235,9 @@ impl<'a> Gen<'a> {
         match self.rng.below(12) {
             0 => {
                 self.feat("if");
-                let c = self.expr(&T::Bool, scope, d, pre);
+                let c = if self.hit("cond-type") { "7".to_string() } else { self.expr(&T::Bool, scope, d, pre) };
                 let a = self.block(t, scope, d);
-                let b = self.block(t, scope, d);
+                let b = if self.hit("branch-type") { format!("{{ {} }}", Self::wrong_value(t)) } else { self.block(t, scope, d) };
                 return format!("if {} {} else {}", c, a, b);
             }
             1 if !self.enums.is_empty() => {
@@ -253,7 +278,7 @@ impl<'a> Gen<'a> {
                 let it = [T::I32, T::U8, T::I8][self.rng.below(3)].clone();
                 let s = self.expr(&it, scope, d, pre);
                 let a = self.arm_body(t, scope, d);
-                let b = self.arm_body(t, scope, d);
+                let b = if self.hit("arm-type") { Self::wrong_value(t) } else { self.arm_body(t, scope, d) };
                 let v = self.fresh("n");
                 let mut sc = scope.clone();
                 sc.push((v.clone(), it.clone()));
@@ -277,7 +302,11 @@ impl<'a> Gen<'a> {
                     let fi = *self.rng.pick(&cands);
                     let ps = self.fns[fi].params.clone();
                     let name = self.fns[fi].name.clone();
-                    let args: Vec<String> = ps.iter().map(|p| self.expr(p, scope, d, pre)).collect();
+                    let mut args: Vec<String> =
+                        ps.iter().map(|p| if self.hit("arg-type") { Self::wrong_value(p) } else { self.expr(p, scope, d, pre) }).collect();
+                    if self.hit("arity") {
+                        if args.is_empty() || self.rng.chance(1, 2) { args.push("0".into()) } else { args.pop(); }
+                    }
                     return format!("{}({})", name, args.join(", "));
                 }
             }
@@ -325,7 +354,7 @@ impl<'a> Gen<'a> {
             9 => {
                 self.feat("array-roundtrip");
                 let a = self.expr(t, scope, d, pre);
-                let b = self.expr(t, scope, d, pre);
+                let b = if self.hit("elem-type") { Self::wrong_value(t) } else { self.expr(t, scope, d, pre) };
                 let arr = self.fresh("ar");
                 write!(pre, "let {} = [{}, {}]; ", arr, a, b).unwrap();
                 let i = self.rng.below(2);
@@ -346,12 +375,20 @@ impl<'a> Gen<'a> {
     /// statements in front would change what is evaluated, e.g. the right side of `&&`)
     fn pure_expr(&mut self, t: &T, scope: &Scope, depth: usize) -> String {
         let mut pre = String::new();
+        // what is generated here may be thrown away: no injection site inside
+        let saved = (self.inject.take(), self.site_count.clone());
         let e = self.expr(t, scope, depth, &mut pre);
+        let restore = |g: &mut Self, saved: (Option<(&'static str, usize)>, BTreeMap<&'static str, usize>)| {
+            g.inject = saved.0;
+            g.site_count = saved.1;
+        };
         if pre.is_empty() {
+            restore(self, saved);
             return e;
         }
         let mut pre2 = String::new();
         let l = self.leaf(t, scope, &mut pre2);
+        restore(self, saved);
         if pre2.is_empty() { l } else { "true".into() }
     }
 
@@ -374,18 +411,25 @@ impl<'a> Gen<'a> {
                     return format!("vec_len({})", v);
                 }
                 let a = self.expr(t, scope, d, pre);
+                // `b` is not used by every operator below: no injection site inside it
+                let saved = (self.inject.take(), self.site_count.clone());
                 let b = self.expr(t, scope, d, pre);
+                self.inject = saved.0;
+                self.site_count = saved.1;
                 match self.rng.below(5) {
                     0 => {
                         self.feat("arith-add");
+                        let b = if self.hit("operand-type") { "true".to_string() } else { b };
                         format!("({} + {})", a, b)
                     }
                     1 => {
                         self.feat("arith-sub");
+                        let b = if self.hit("operand-type") { "true".to_string() } else { b };
                         format!("({} - {})", a, b)
                     }
                     2 => {
                         self.feat("arith-mul");
+                        let b = if self.hit("operand-type") { "true".to_string() } else { b };
                         format!("({} * {})", a, b)
                     }
                     3 => {
@@ -461,13 +505,13 @@ impl<'a> Gen<'a> {
                     self.feat("to_string");
                     let it = self.base_ty();
                     let it = if it == T::Str { T::I32 } else { it };
-                    let a = self.expr(&it, scope, d, pre);
+                    let a = if self.hit("arg-type") { Self::wrong_value(&it) } else { self.expr(&it, scope, d, pre) };
                     format!("{}({})", Self::to_string_fn(&it), a)
                 }
                 3 if self.cfg.traits && !self.show_impls.is_empty() => {
                     self.feat("trait-call");
                     let st = self.rng.pick(&self.show_impls.clone()).clone();
-                    let a = self.expr(&st, scope, d, pre);
+                    let a = if self.hit("annot-type") { Self::wrong_value(&st) } else { self.expr(&st, scope, d, pre) };
                     let tv = self.fresh("sv");
                     write!(pre, "let {}: {} = {}; ", tv, self.ty_text(&st), a).unwrap();
                     match self.rng.below(4) {
@@ -502,8 +546,14 @@ impl<'a> Gen<'a> {
             T::Struct(i) => {
                 self.feat("struct-lit");
                 let fts = self.structs[*i].fields.clone();
-                let fields: Vec<String> =
-                    fts.iter().enumerate().map(|(k, ft)| format!("f{}: {}", k, self.expr(ft, scope, d, pre))).collect();
+                let fields: Vec<String> = fts
+                    .iter()
+                    .enumerate()
+                    .map(|(k, ft)| {
+                        let v = if self.hit("field-type") { Self::wrong_value(ft) } else { self.expr(ft, scope, d, pre) };
+                        if self.hit("unknown-field") { format!("zz{}: {}", k, v) } else { format!("f{}: {}", k, v) }
+                    })
+                    .collect();
                 format!("S{} {{ {} }}", i, fields.join(", "))
             }
             T::Enum(i) => {
@@ -541,6 +591,11 @@ impl<'a> Gen<'a> {
                         format!("array_set([{}], {}, {})", items.join(", "), i, v)
                     } else {
                         let name = self.fresh("as");
+                        let mut items = items;
+                        if self.hit("array-length") {
+                            let extra = items[0].clone();
+                            items.push(extra);
+                        }
                         write!(pre, "let {}: {} = array_set([{}], {}, {}); ", name, self.ty_text(t), items.join(", "), i, v).unwrap();
                         name
                     }
@@ -624,6 +679,7 @@ impl<'a> Gen<'a> {
 
     /// `{ stmts; tail }` of type `t`
     fn block(&mut self, t: &T, scope: &Scope, depth: usize) -> String {
+        let is_top = std::mem::replace(&mut self.top_block, false);
         let mut sc = scope.clone();
         let mut s = String::from("{ ");
         let n = self.rng.below(3);
@@ -631,7 +687,7 @@ impl<'a> Gen<'a> {
             self.stmt(&mut sc, depth, &mut s);
         }
         let mut pre = String::new();
-        let tail = self.expr(t, &sc, depth, &mut pre);
+        let tail = if is_top && self.hit("ret-type") { Self::wrong_value(t) } else { self.expr(t, &sc, depth, &mut pre) };
         write!(s, "{}{} }}", pre, tail).unwrap();
         s
     }
@@ -1221,7 +1277,11 @@ fn show_lst[T: Show](l: Lst[T]) -> string { match l { Lst::Nil => ".", Lst::Cons
                 let fts = self.structs[*i].fields.clone();
                 for (k, ft) in fts.iter().enumerate() {
                     let n = self.fresh("s");
-                    write!(out, "let {} = {}.f{}; ", n, v, k).unwrap();
+                    if self.hit("unknown-field") {
+                        write!(out, "let {} = {}.zz{}; ", n, v, k).unwrap();
+                    } else {
+                        write!(out, "let {} = {}.f{}; ", n, v, k).unwrap();
+                    }
                     self.show(ft, &n, out);
                 }
             }
@@ -1365,6 +1425,7 @@ fn show_lst[T: Show](l: Lst[T]) -> string { match l { Lst::Nil => ".", Lst::Cons
                 scope.push((n, p.clone()));
             }
             let depth = self.cfg.max_depth;
+            self.top_block = true;
             let body = self.block(&ret, &scope, depth);
             writeln!(src, "fn fun{}({}) -> {} {}", i, ptxt.join(", "), self.ty_text(&ret), body).unwrap();
             self.fns.push(FnD { name: format!("fun{}", i), params, ret, tparams: 0, bounded: vec![] });
@@ -1391,6 +1452,15 @@ fn show_lst[T: Show](l: Lst[T]) -> string { match l { Lst::Nil => ".", Lst::Cons
         writeln!(src, "fn main() {{ {}() }}", body).unwrap();
         src
     }
+}
+
+/// like `gen_program`, with one type error injected at the `at`-th site of `kind` (None = none);
+/// returns the source, the number of sites of each kind seen, and what was injected
+pub fn gen_program_inject(rng: &mut Rng, cfg: Cfg, inject: Option<(&'static str, usize)>) -> (String, BTreeMap<&'static str, usize>, Option<String>) {
+    let mut g = Gen::new(rng, cfg);
+    g.inject = inject;
+    let src = g.program();
+    (src, g.site_count, g.injected)
 }
 
 pub fn gen_program(rng: &mut Rng, cfg: Cfg) -> (String, BTreeMap<&'static str, usize>) {
